@@ -123,13 +123,32 @@ def run(ctx):
             prev = c
         L.append("int main() {}")
         return "\n".join(L) + "\n"
+    # "equivalent iff dimension AND magnitude coincide": pairs with the same magnitude but different dimensions
+    bymag = {}
+    for c in cases:
+        bymag.setdefault(c["mk"], {}).setdefault(c["dk"], c)
+    cross = []
+    for mk, d in sorted(bymag.items()):
+        lst = [d[k] for k in sorted(d)][:6]
+        cross += [(lst[k], lst[k + 1]) for k in range(len(lst) - 1)]
+    rnd.shuffle(cross)
+    cross = cross[:400 if ctx.tier == "quick" else 3000]
+
+    def cross_tu(pairs):
+        L = [PRELUDE % hdrs]
+        for n, (a, b) in enumerate(pairs):
+            L.append("using XA%d = AU_<decltype(%s)>; using XB%d = AU_<decltype(%s)>;" % (n, sp.inst(a["e"]), n, sp.inst(b["e"])))
+            L.append('static_assert(!are_units_quantity_equivalent(XA%d{}, XB%d{}) && !are_units_quantity_equivalent(XB%d{}, XA%d{}), "c%d cross-dimension-not-equivalent c%d");' % (n, n, n, n, a["i"], b["i"]))
+            L.append('static_assert(!AreUnitsQuantityEquivalent<XA%d, XB%d>::value && !AreUnitsPointEquivalent<XA%d, XB%d>::value, "c%d cross-dimension-not-equivalent c%d");' % (n, n, n, n, a["i"], b["i"]))
+        return "\n".join(L + ["int main() {}"]) + "\n"
     byi = {c["i"]: c for c in cases}
     ncomp = [0]
 
     def compile_chunk(job):
         lst, cfg = job
         ncomp[0] += 1
-        src = ctx.write("units_%s_%d.cc" % (cfg, ncomp[0]), tu(lst))
+        is_cross = bool(lst) and isinstance(lst[0], tuple)
+        src = ctx.write("units_%s_%d.cc" % (cfg, ncomp[0]), cross_tu(lst) if is_cross else tu(lst))
         rc, out = ctx.cxx(src, cfg=cfg, syntax_only=True, opt="-O0", flags=(["-ferror-limit=0"] if cfg.startswith("c") else ["-fmax-errors=0"]))
         if rc == 0:
             return []
@@ -139,12 +158,13 @@ def run(ctx):
         res = [("assert", f.strip().rstrip('"'), cfg, "") for f in sorted(set(fails))]
         if hard:
             if len(lst) == 1 or ncomp[0] > 40 * len(chunks):
-                res.append(("hard", "c%d" % lst[0]["i"], cfg, "\n".join(hard[:4])))
+                res.append(("hard", "c%d" % (lst[0][0]["i"] if is_cross else lst[0]["i"]), cfg, "\n".join(hard[:4])))
             else:
                 h = len(lst) // 2
                 return compile_chunk((lst[:h], cfg)) + compile_chunk((lst[h:], cfg))
         return res
-    jobs = [(ch, cfg) for ch in chunks for cfg in cfgs]
+    jobs = [(ch, cfg) for ch in chunks for cfg in cfgs] + [(cross[k:k + 100], cfg) for k in range(0, len(cross), 100) for cfg in cfgs]
+    stats["cross_dimension_pairs"] = len(cross)
     fails = [f for lst in ctx.pmap(compile_chunk, jobs) for f in lst]
     ctx.programs += ncomp[0]
     ctx.log("unit expressions: %d cases (%d excluded), %d chunks x %s, %d compiles, %d failures" % (len(cases), n_excl, len(chunks), cfgs, ncomp[0], len(fails)))
